@@ -3,6 +3,8 @@ Require Import PonyV.Base.PyBase PonyV.Model.C07Base PonyV.Model.C07Fmt PonyV.Ge
                PonyV.Proofs.C07Digits PonyV.Proofs.C07Proofs.
 (* C07Corr: the checkers of the correspondence run; required here so that they are rebuilt with the cone whenever Gen changes *)
 Require PonyV.Model.C07Corr.
+(* C07Float: PrimFloat model of the SQLite timedelta storage with its exhaustive exactness theorems (see the note in Proofs/C07Float.v) *)
+Require PonyV.Proofs.C07Float.
 
 (* SQLite date attributes: date(999, 12, 31) is written as '999-12-31' (strftime does not pad the year) and read back as that string *)
 Theorem C07_date_below_1000_refuted :
